@@ -25,6 +25,7 @@ type c13reg struct {
 	sf      *onet.VerifC13Services
 	ps      *onet.VerifC13Protocols
 	svcSeen map[string]string // name -> id seen for it in this case
+	protos  []string          // names registered with ps
 }
 
 func newC13reg() *c13reg {
@@ -100,6 +101,15 @@ func (r *c13reg) exec(cs *h.Case, tk []string, nondet func(kind, what string)) (
 			back = "back=ok"
 		}
 		names, ids := r.sf.Names(), r.sf.IDs()
+		sharing := 0
+		for _, x := range ids {
+			if x.Equal(sid) {
+				sharing++
+			}
+		}
+		if back == "back=other" && sharing == 1 {
+			cs.Fail("service-name-roundtrip", fmt.Sprintf("the factory does not lead from the id of %q back to its name and suite although no other registered service has that id", name))
+		}
 		if len(names) != len(ids) || len(names) == 0 || names[len(names)-1] != name || !ids[len(ids)-1].Equal(sid) {
 			cs.Fail("service-registry-inconsistent", "the lists of registered names and ids do not end with the service just registered")
 		}
@@ -143,6 +153,16 @@ func (r *c13reg) exec(cs *h.Case, tk []string, nondet func(kind, what string)) (
 			back := "back=other"
 			if r.ps.IDToName(pid) == name && r.ps.Exists(pid) {
 				back = "back=ok"
+			}
+			sharing := 0
+			r.protos = append(r.protos, name)
+			for _, n := range r.protos {
+				if onet.ProtocolNameToID(n).Equal(pid) {
+					sharing++
+				}
+			}
+			if back == "back=other" && sharing == 1 {
+				cs.Fail("proto-name-roundtrip", fmt.Sprintf("the protocol table does not lead from the id of %q back to its name although no other registered protocol has that id", name))
 			}
 			obs = uuid.UUID(pid).String() + " new " + back
 		}
